@@ -129,9 +129,16 @@ func (p *c29Injector) Extract(ctx context.Context, _ nethttp.Header) (context.Co
 
 // c29Recorder is the receiving node's propagator: Extract appends the header set it was given to a chain
 // kept in the context, so the actor can see every Extract that contributed to its context.
-type c29Recorder struct{}
+type c29Recorder struct{ inj *c29Injector }
 
-func (c29Recorder) Inject(context.Context, nethttp.Header) error { return nil }
+// a node's propagator injects too: an actor that relays while handling an inbound remote message sends
+// through its own system's remoting client
+func (r c29Recorder) Inject(ctx context.Context, h nethttp.Header) error {
+	if r.inj == nil {
+		return nil
+	}
+	return r.inj.Inject(ctx, h)
+}
 func (c29Recorder) Extract(ctx context.Context, h nethttp.Header) (context.Context, error) {
 	prev, _ := ctx.Value(c29ChainKey{}).([][]c29Entry)
 	chain := make([][]c29Entry, 0, len(prev)+1)
@@ -171,6 +178,54 @@ func (a *c29Actor) get(id string) ([][]c29Entry, bool) {
 	return c, ok
 }
 
+// c29Relay forwards while handling an inbound remote message: its outbound context is DERIVED from the
+// context of the message being handled, with a different propagated value (the plan found under the inbound
+// message id says what the propagator must inject for the outbound send).
+type c29Plan struct {
+	id2  string
+	spec c29Spec
+	mode string // ask (the system's own remoting client) | tell (a non-coalescing client)
+}
+
+type c29Relay struct {
+	mu     sync.Mutex
+	plans  map[string]c29Plan
+	leaf   *address.Address
+	direct remoteclient.Client
+	done   chan string
+}
+
+func (*c29Relay) PreStart(*Context) error { return nil }
+func (*c29Relay) PostStop(*Context) error { return nil }
+func (a *c29Relay) Receive(ctx *ReceiveContext) {
+	m, ok := ctx.Message().(*testpb.Reply)
+	if !ok {
+		return
+	}
+	a.mu.Lock()
+	plan, ok := a.plans[m.GetContent()]
+	a.mu.Unlock()
+	if !ok {
+		return
+	}
+	out := context.WithValue(ctx.Context(), c29SpecKey{}, c29Call{id: plan.id2, spec: plan.spec})
+	res := plan.id2
+	switch plan.mode {
+	case "ask":
+		if _, err := ctx.Self().remoteAsk(out, a.leaf, &testpb.Reply{Content: plan.id2}, 3*time.Second); err != nil {
+			res = "ERR " + plan.id2 + ": " + err.Error()
+		}
+	default:
+		if err := a.direct.RemoteTell(out, ctx.Self().getAddress(), a.leaf, &testpb.Reply{Content: plan.id2}); err != nil {
+			res = "ERR " + plan.id2 + ": " + err.Error()
+		}
+	}
+	if strings.HasPrefix(m.GetContent(), "ask|") {
+		ctx.Response(&testpb.Reply{Content: "[]"})
+	}
+	a.done <- res
+}
+
 type c29Capture struct {
 	mu   sync.Mutex
 	msgs map[string]*internalpb.RemoteMessage
@@ -206,8 +261,9 @@ func TestVerifC29(t *testing.T) {
 	// ---- receiving node
 	host := "127.0.0.1"
 	port := inet.Get(1)[0]
+	inj := &c29Injector{injected: map[string][]c29Entry{}}
 	sys, err := NewActorSystem("c29sys", WithLogger(log.DiscardLogger),
-		WithRemote(remote.NewConfig(host, port, remote.WithContextPropagator(c29Recorder{}))))
+		WithRemote(remote.NewConfig(host, port, remote.WithContextPropagator(c29Recorder{inj: inj}))))
 	if err != nil {
 		t.Fatalf("actor system: %v", err)
 	}
@@ -261,12 +317,35 @@ func TestVerifC29(t *testing.T) {
 	})
 	captAddr := address.New("c29rec", "c29sys", chost, cport)
 
-	inj := &c29Injector{injected: map[string][]c29Entry{}}
 	coal := remoteclient.NewClient(remoteclient.WithClientContextPropagator(inj), remoteclient.WithSendCoalescing(8))
 	defer coal.Close()
 	direct := remoteclient.NewClient(remoteclient.WithClientContextPropagator(inj))
 	defer direct.Close()
 	from := address.NoSender()
+
+	// ---- second node (leaf) and the relay actor on the first node
+	port2 := inet.Get(1)[0]
+	sys2, err := NewActorSystem("c29leaf", WithLogger(log.DiscardLogger),
+		WithRemote(remote.NewConfig(host, port2, remote.WithContextPropagator(c29Recorder{inj: inj}))))
+	if err != nil {
+		t.Fatalf("leaf system: %v", err)
+	}
+	if err := sys2.Start(ctx); err != nil {
+		t.Fatalf("leaf start: %v", err)
+	}
+	defer func() { _ = sys2.Stop(ctx) }()
+	time.Sleep(200 * time.Millisecond)
+	leaf := &c29Actor{seen: map[string][][]c29Entry{}}
+	leafPID, err := sys2.Spawn(ctx, "c29leafrec", leaf)
+	if err != nil {
+		t.Fatalf("leaf spawn: %v", err)
+	}
+	relay := &c29Relay{plans: map[string]c29Plan{}, leaf: leafPID.getAddress(), direct: direct, done: make(chan string, 1024)}
+	relayPID, err := sys.Spawn(ctx, "c29relay", relay)
+	if err != nil {
+		t.Fatalf("relay spawn: %v", err)
+	}
+	relayAddr := relayPID.getAddress()
 
 	expect := 0
 	for _, g := range groups {
@@ -422,6 +501,84 @@ func TestVerifC29(t *testing.T) {
 				o.Err = fmt.Sprintf("reply type %T", resp)
 			}
 			w.put(o)
+		}
+
+		// ---------------- part 3: first-hop sends whose context already carries (stale) wire metadata
+		for i, sp := range g.Specs {
+			stale := inet.NewMetadata()
+			stale.Set("X-Stale-Upstream", "s")
+			stale.Set("Traceparent", "00-stale-00")
+			id := fmt.Sprintf("ask|%s.pre.%d", g.Name, i)
+			cctx := inet.ContextWithMetadata(context.WithValue(ctx, c29SpecKey{}, c29Call{id: id, spec: sp}), stale)
+			o := c29Out{Group: g.Name, Part: "ask-preattached", Spec: i, ID: id}
+			resp, err := direct.RemoteAsk(cctx, from, recAddr, &testpb.Reply{Content: id}, 3*time.Second)
+			expect++
+			inj.mu.Lock()
+			o.Injected = inj.injected[id]
+			inj.mu.Unlock()
+			if err != nil {
+				o.Err = "RemoteAsk: " + err.Error()
+			} else if rr, ok := resp.(*testpb.Reply); ok {
+				if jerr := json.Unmarshal([]byte(rr.GetContent()), &o.Chain); jerr != nil {
+					o.Err = "reply: " + jerr.Error()
+				}
+			} else {
+				o.Err = fmt.Sprintf("reply type %T", resp)
+			}
+			w.put(o)
+		}
+
+		// ---------------- part 4: two hops. client -> relay actor (node 1) -> leaf actor (node 2); the relay
+		// derives its outbound context from the context of the message it is handling and changes what the
+		// propagator injects (spec of the NEXT message of the group)
+		n2 := len(g.Specs)
+		for i, sp := range g.Specs {
+			for _, mode := range []string{"ask", "tell"} {
+				for _, hop1 := range []string{"ask", "tell"} {
+					id1 := fmt.Sprintf("%s.h1.%s.%s.%d", g.Name, hop1, mode, i)
+					if hop1 == "ask" {
+						id1 = "ask|" + id1
+					}
+					id2 := fmt.Sprintf("%s.h2.%s.%s.%d", g.Name, hop1, mode, i)
+					spec2 := g.Specs[(i+1)%n2]
+					relay.mu.Lock()
+					relay.plans[id1] = c29Plan{id2: id2, spec: spec2, mode: mode}
+					relay.mu.Unlock()
+					cctx := context.WithValue(ctx, c29SpecKey{}, c29Call{id: id1, spec: sp})
+					var herr error
+					if hop1 == "ask" {
+						_, herr = direct.RemoteAsk(cctx, from, relayAddr, &testpb.Reply{Content: id1}, 5*time.Second)
+					} else {
+						herr = direct.RemoteTell(cctx, from, relayAddr, &testpb.Reply{Content: id1})
+					}
+					o := c29Out{Group: g.Name, Part: "relay-" + hop1 + "-" + mode, Spec: (i + 1) % n2, ID: id2}
+					if herr != nil {
+						o.Err = "first hop: " + herr.Error()
+						w.put(o)
+						continue
+					}
+					select {
+					case res := <-relay.done:
+						if strings.HasPrefix(res, "ERR ") {
+							o.Err = "relay: " + res
+						}
+					case <-time.After(5 * time.Second):
+						o.Err = "relay did not forward"
+					}
+					if o.Err == "" {
+						c29WaitFor(3*time.Second, func() bool { _, ok := leaf.get(id2); return ok })
+						if chain, ok := leaf.get(id2); ok {
+							o.Chain = chain
+						} else {
+							o.Err = "not delivered to the leaf"
+						}
+					}
+					inj.mu.Lock()
+					o.Injected = inj.injected[id2]
+					inj.mu.Unlock()
+					w.put(o)
+				}
+			}
 		}
 	}
 }
